@@ -8,6 +8,7 @@ import verifkit as vk
 class C07(Pipeline):
     pid = "C07"
     mc = [("EvmAttest_mc", "EvmAttest_single", ("quick", "thorough")),
+          ("EvmAttest_mc", "EvmAttest_receipt", ("quick", "thorough")),
           ("EvmAttest_mc", "EvmAttest_replay", ("quick", "thorough")),
           ("EvmAttest_mc", "EvmAttest_handover", ("quick",)),
           ("EvmAttest_mc", "EvmAttest_single_big", ("thorough",)),
@@ -19,7 +20,7 @@ class C07(Pipeline):
     driver_pkg = "drivers/evmattest"
     driver_test = "TestDriveEvmAttest"
     trace_module = "EvmAttestTrace"
-    quick_cap = 8000
+    quick_cap = 10000
     thorough_cap = 14000
     assumptions = [
         "messages are really enqueued through the evm keeper (AddSmartContractExecutionToConsensus, PublishSnapshotToAllChains, SetAsCompassContract, CreateUserSmartContractDeployment), signed through the consensus msg server, attested through AddEvidence and the consensus module's EndBlock (E1 keeper wiring plus the two wirings app.go adds: EvmKeeper.Skyway and the attested-message listeners)",
@@ -27,6 +28,8 @@ class C07(Pipeline):
         "the relayer publishes public access data naming the valset that is live on the chain (or error data) before the first evidence; 'exact encoding' is judged against that valset",
         "the reference encoding is computed by the driver from the stored message with the compass ABI shipped in x/evm/keeper/testdata/sample-abi.json; remote transactions are signed by one fixed key, so a transaction is identified by (call data, nonce)",
         "which pieces of evidence are identical is decided on the bytes the validators submitted (sha256 of the stored proof), never with the code's own BytesToHash; receipts of one transaction vary independently in status and in the rest of the receipt (gas used), the logs are the same in every variant",
+        "stored evidence is decoded by the driver with go-ethereum directly (never with GetTX/GetReceipt of the code under test); which message the attestation pass stopped at is read per message on a discarded branch with the same ProcessMessageForAttestation call the keeper's loop makes",
+        "block jumps never land an end-blocker on a height divisible by 50, so the 300-block pruning of old messages is not part of the histories",
         "four validators with shares 3:1:1:1 in the current snapshot ({1,2} holds exactly 2/3, {2,3,4} is one short); blocks are 60 s apart, which keeps the relayer pick stable",
         "one user-contract deployment per history (two deployments of one contract created in the same block are indistinguishable for finishUserSmartContractDeployment)",
     ]
@@ -64,17 +67,24 @@ class C07(Pipeline):
               "one_short": 0, "corruptions_offered": {}, "prefix_lengths_accepted": {},
               "note_metrix_success_recorded_for_rejected_proof": 0,
               "same_tx_reported_with_different_receipts": 0, "winner_with_deviating_evidence_submitted_first": 0,
-              "winner_with_deviating_evidence_submitted_last": 0}
+              "winner_with_deviating_evidence_submitted_last": 0, "quorum_on_proof_without_decodable_receipt": 0,
+              "resubmitted_after_block_jump": {}}
         prev = None
         for e in events:
             if e["act"] == "Evidence" and e["res"] == "ok" and e["args"]["t"] == "tx":
                 c = e["args"]["corr"]
                 st["corruptions_offered"][c] = st["corruptions_offered"].get(c, 0) + 1
+            if e["act"] == "Init":
+                jump = 0
+            if e["act"] == "Advance":
+                jump = e["args"]["d"]
+            if e["act"] == "EndBlock" and prev is not None and e["errc"] == "processed" and jump:
+                st["resubmitted_after_block_jump"][str(jump)] = st["resubmitted_after_block_jump"].get(str(jump), 0) + 1
             if e["act"] == "EndBlock" and prev is not None:
                 qs = {q["id"]: q for q in prev["obs"]["queue"]}
                 if e["errc"] in ("notverified", "txfailed") and e["obs"]["succ"] > prev["obs"]["succ"]:
                     st["note_metrix_success_recorded_for_rejected_proof"] += 1     # observation outside C07, see report
-                failing = e["routed"][-1]["id"] if e["errc"] and e["routed"] else None
+                failing = e["fail"] or None
                 rid = {r["id"] for r in e["routed"]}
                 for q in qs.values():
                     tot = sum(share[g["v"]] for g in q["ev"])
@@ -103,6 +113,8 @@ class C07(Pipeline):
                             st["winner_with_deviating_evidence_submitted_first"] += 1
                         if last["eid"] != win[0][0]["eid"]:
                             st["winner_with_deviating_evidence_submitted_last"] += 1
+                    if win and win[0][0]["t"] == "tx" and win[0][0]["st"] in ("absent", "bad"):
+                        st["quorum_on_proof_without_decodable_receipt"] += 1
                     if win and sum(share[x["v"]] for x in win[0]) == 4:
                         st["won_with_exactly_two_thirds"] += 1
                     k = q["kind"]
@@ -148,7 +160,7 @@ class C07(Pipeline):
         v = self.validate(sub)
         out["effect_without_proof_rejected"] = any(n in ("C07.SnapshotLiveOnlyByProof", "C07.FailedOrForeignRemovesWithoutEffects") for n, _, _ in v.monfail)
         sub = copy.deepcopy(byh[h][: i + 1])
-        sub[i]["errc"], sub[i]["err"] = "", ""          # the code claims to have accepted it
+        sub[i]["errc"], sub[i]["err"], sub[i]["fail"], sub[i]["res"] = "", "", 0, "eb"   # the code claims to have accepted it
         v = self.validate(sub)
         out["silent_acceptance_rejected"] = any(n in ("C07.SuccessOnlyIfExactEncoding", "C07.NoSecondUse") for n, _, _ in v.monfail)
         # 3: drop the end-block of a history with an accepted proof
